@@ -13,7 +13,17 @@ def main():
         summ = " ".join(str(m.get("summary", "")).split())[:230]
         needs = " ".join(str(m.get("needs", "")).split())[:200]
         rows.append(f"| `seeded/{d.name}` | {summ} | {needs} | {c.get('check_result', '?')} | {c.get('detection', '')} |")
-    text = ("Independent sub-agents were given only the text of one property and a scratch worktree of bluesky (nothing from /verif)\n"
+    nb = sum(1 for r in rows if "| caught as built |" in r)
+    by_round = {}
+    for d in sorted((ROOT / "seeded").iterdir()):
+        c = json.loads((d / "meta.json").read_text()).get("confirmed_by_coordinator", {})
+        rd = d.name.split("-")[1]
+        a, b = by_round.get(rd, (0, 0))
+        by_round[rd] = (a + 1, b + (c.get("detection", "") == "caught as built"))
+    stats = "; ".join(f"round {rd}: {a} changes, {b} caught as built, {a - b} missed at first and caught after strengthening" for rd, (a, b) in sorted(by_round.items()))
+    text = (f"**Summary.** {len(rows)} confirmed seeded changes ({stats}).  Every one of them is detected by the committed machinery\n"
+            "(`python -m harness.seeded_regress` re-runs them all).\n\n" +
+            "Independent sub-agents were given only the text of one property and a scratch worktree of bluesky (nothing from /verif)\n"
             "and asked for a change that breaks the property while the existing tests still pass, with a demonstration.  Each change\n"
             "below was confirmed (demo fails with it, passes without it) and then run against the checks\n"
             "(`git -C /repo apply seeded/<id>/patch.diff; ./check <Cxx>; git -C /repo checkout -- .`, or equivalently\n"
